@@ -47,7 +47,7 @@ def spaces(tier):
 
     return [
         Space("subsample-all-count-vectors", gen_sub, "count vectors of length 1..4, entries 0..3, total <= 6 (quick) / 8 (thorough) x n in 0..total+1 x every RNG answer", shards=64),
-        Space("downsample-all-multisets", gen_down, "multisets of 0..4(5) strings over {A,B,AB} as list/ndarray/Series/table x maxseqs in {None,0..N+1} x every RNG answer"),
+        Space("downsample-all-multisets", gen_down, "multisets of 0..4(5) strings over {A,B,AB} as list/ndarray/Series/table/table with duplicated index labels x maxseqs in {None,0..N+1} x every RNG answer"),
         Space("powerlaw_sample-uniform-grid", gen_pl, "size 0..3 x xmin 1..4 x alpha {1.5,2,3.5} x uniform grid^size"),
         Space("powerlaw_mle-all-multisets", gen_mle, "multisets of 1..4(5) counts from 1..6 x cmin {1,2} x 3 methods"),
     ]
@@ -137,7 +137,8 @@ def check_case(case, acc):
         seqs = list(case[1])
         N = len(seqs)
         boxes = {"list": lambda: list(seqs), "ndarray": lambda: np.array(seqs, dtype=object) if not seqs else np.array(seqs), "series": lambda: pd.Series(seqs, index=range(3, 3 + N), dtype=object),
-                 "table": lambda: pd.DataFrame({"CDR3B": seqs, "k": list(range(N))}, index=range(7, 7 + N))}
+                 "table": lambda: pd.DataFrame({"CDR3B": seqs, "k": list(range(N))}, index=range(7, 7 + N)),
+                 "table-duplicate-labels": lambda: pd.DataFrame({"CDR3B": seqs, "k": list(range(N))}, index=[i // 2 for i in range(N)])}
         for bname, mk in boxes.items():
             for m in [None] + list(range(0, N + 2)):
                 holder = {}
@@ -163,10 +164,17 @@ def check_case(case, acc):
                             return
                         acc.ok((bname, "identity"))
                         continue
-                    if bname == "table":
+                    if bname.startswith("table"):
                         acc.cls("downsample-table")
-                        ok = isinstance(r, pd.DataFrame) and len(r) == m and list(r.columns) == list(x.columns) and len(set(r.index)) == m and all(
-                            (lbl in x.index) and r.loc[lbl].equals(x.loc[lbl]) for lbl in r.index)
+                        ok = isinstance(r, pd.DataFrame) and len(r) == m and list(r.columns) == list(x.columns)
+                        if ok:
+                            # a subset of rows: (label, row values) pairs form a sub-multiset of the input's, the unique column k never repeats
+                            rest = [(lbl, tuple(row)) for lbl, row in zip(x.index, x.values.tolist())]
+                            for item in [(lbl, tuple(row)) for lbl, row in zip(r.index, r.values.tolist())]:
+                                if item in rest:
+                                    rest.remove(item)
+                                else:
+                                    ok = False
                     else:
                         out = list(r)
                         rest = list(seqs)
@@ -182,7 +190,7 @@ def check_case(case, acc):
                     if any(l[0] != "choice" or l[3] for l in holder["log"]):
                         acc.fail(key + "rng-usage", rc, "draw without replacement", holder["log"])
                         return
-                    acc.ok((bname, m, tuple(sorted(map(str, list(r) if bname != "table" else r.index)))), nontrivial=True)
+                    acc.ok((bname, m, tuple(sorted(map(str, list(r) if not bname.startswith("table") else r.index)))), nontrivial=True)
     elif kind == "powerlaw_sample":
         _, size, xmin, alpha = case
         holder = {}
